@@ -379,23 +379,31 @@ class Pipe<StageClass::kGenerator, CurStage, PipeNext> {
   void execute() {
     ssize_t numThreads = std::max<ssize_t>(
         1, std::min(tasks_.numPoolThreads(), StageLimits<CurStage>::limit(stage_)));
-    completion_ = std::make_unique<CompletionEventImpl>(static_cast<int>(numThreads));
+    completion_ = std::make_shared<CompletionEventImpl>(static_cast<int>(numThreads));
     for (ssize_t i = 0; i < numThreads; ++i) {
-      tasks_.schedule([this]() {
-        // RAII guard ensures the completion event is signaled even if an exception
-        // propagates out of pipeNext_.execute() (e.g. when ConcurrentTaskSet runs a
-        // downstream stage inline and it throws). Without this, wait() would hang on
-        // completion_->wait(0) because the count is never decremented.
-        struct CompletionGuard {
-          DISPENSO_INLINE ~CompletionGuard() {
-            if (completion->intrusiveStatus().fetch_sub(1, std::memory_order_acq_rel) == 1) {
-              completion->notify(0);
-            }
+      // RAII guard ensures the completion event is signaled even if an exception
+      // propagates out of pipeNext_.execute() (e.g. when ConcurrentTaskSet runs a
+      // downstream stage inline and it throws). It is owned by the task functor rather than
+      // created inside its body, so that a generator task that the canceled task set skips
+      // (an exception was captured before it started) still signals when it is destroyed.
+      // Without this, wait() would hang on completion_->wait(0) because the count is never
+      // decremented.
+      // The guard shares ownership of the event: a skipped task is destroyed after the task set has
+      // already counted it as done, i.e. possibly after wait() has returned and the pipe is gone.
+      struct CompletionGuard {
+        explicit CompletionGuard(std::shared_ptr<CompletionEventImpl> c) : completion(std::move(c)) {}
+        CompletionGuard(CompletionGuard&& other) noexcept : completion(std::move(other.completion)) {}
+        CompletionGuard(const CompletionGuard&) = delete;
+        DISPENSO_INLINE ~CompletionGuard() {
+          if (completion &&
+              completion->intrusiveStatus().fetch_sub(1, std::memory_order_acq_rel) == 1) {
+            completion->notify(0);
           }
-          CompletionEventImpl* completion;
-        };
-        CompletionGuard cGuard{completion_.get()};
-
+        }
+        std::shared_ptr<CompletionEventImpl> completion;
+      };
+      tasks_.schedule([this, cGuard = CompletionGuard(completion_)]() {
+        (void)cGuard;
         while (!tasks_.hasException()) {
           auto op = stage_();
           if (!op) {
@@ -415,7 +423,7 @@ class Pipe<StageClass::kGenerator, CurStage, PipeNext> {
 
  private:
   ConcurrentTaskSet& tasks_;
-  std::unique_ptr<CompletionEventImpl> completion_;
+  std::shared_ptr<CompletionEventImpl> completion_;
   CurStage stage_;
   PipeNext pipeNext_;
 };
